@@ -49,7 +49,8 @@ class Ctl:
 
 
 class Server:
-    def __init__(self, workdir, password=None, appendonly=False, autosave=None, logon=False, extra=None, quiet=False):
+    def __init__(self, workdir, password=None, appendonly=False, autosave=None, logon=False, extra=None, quiet=False, conf=None):
+        self.conf = conf            # bytes of a configuration file the server is started from (read by ferrous' own parser)
         self.dir = workdir
         os.makedirs(workdir, exist_ok=True)
         self.password = password
@@ -70,6 +71,10 @@ class Server:
         args = [FVH, 'serve', '--port', str(self.port), '--ctl', str(self.ctl_port), '--dir', self.dir]
         if self.password is not None:
             args += ['--requirepass', self.password]
+        if self.conf is not None:
+            cp = os.path.join(self.dir, 'fvh.conf')
+            open(cp, 'wb').write(self.conf)
+            args += ['--conf', cp]
         if self.appendonly:
             args += ['--appendonly']
         if self.autosave:
